@@ -448,23 +448,37 @@ def compare_instance(inst, rng, N):
     return count, failures
 
 
+def _oracle_task(task):
+    import random
+    inst, seed, N = task
+    return compare_instance(inst, random.Random(seed), N)
+
+
 def oracle_formats(ctx, ninst=None):
     n = ninst or ctx.n(15, 90)
-    N = ctx.n(3, 4)
     rng = ctx.rng
     failures, samples, nt = [], [], set()
-    evals = 0
     vts = ["sympy", "dense", "sparse"]
+    tasks = []
     for k in range(n):
         inst = make_instance(rng, vts[k % 3], k // 3)
-        cnt, fs = compare_instance(inst, rng, N)
-        evals += cnt
-        failures += fs
+        # exact symbolic evaluation is slow: total order 3 there, 4 (thorough) for the float types
+        N = 3 if (ctx.quick or inst["fmt"] == "sympy") else 4
+        tasks.append((inst, rng.getrandbits(32), N))
         if max(inst["sub"]) >= 1:
             nt.add(core.canon(inst))
         if k < 3:
             samples.append(inst)
-    return dict(evaluations=evals, nontrivial=len(nt), rule="distinct instances with >= 2 blocks, each run through all its presentations, all elements of H_tilde, U, U† up to total order %d" % N,
+    if ctx.quick:
+        results = [_oracle_task(t) for t in tasks]
+    else:
+        import multiprocessing
+        with multiprocessing.Pool(16) as pool:
+            results = pool.map(_oracle_task, tasks, chunksize=1)
+    evals = sum(c for c, _ in results)
+    for _, fs in results:
+        failures += fs
+    return dict(evaluations=evals, nontrivial=len(nt), rule="distinct instances with >= 2 blocks, each run through all its presentations, all elements of H_tilde, U, U† up to total order 3 (quick, symbolic) / 4 (thorough, dense and sparse)",
                 samples=samples, failures=failures)
 
 
